@@ -249,6 +249,21 @@ def elfIter (T : Bytes) (es : Nat) : Nat → Nat → List ElfSec × End
       if s.typ = .unused then r else (s :: r.1, r.2)
     | .panic => ([], .bad) | .oob => ([], .oob) | .ub => ([], .ub)
 
+/-- `ElfSection::string_table()`: reads the `addr` field of the string-table section header the tag designates
+    (`shndx`-th entry). The value is an address OUTSIDE the boot information (documented); the read of the field itself
+    happens inside the tag - or faults. -/
+def elfStrTabAddr (T : Bytes) (es shndx : Nat) : Res Nat :=
+  if es = 40 then rd32 T (20 + shndx * es + 12)
+  else if es = 64 then rd64 T (20 + shndx * es + 16)
+  else .panic
+
+/-- `ElfSection::name()` against an external string table `strtab` (zero padded): bytes from `name_index` to the first NUL -/
+def elfName (T : Bytes) (es shndx o : Nat) (strtab : Bytes) : Res (Ex Unit Bytes) := do
+  let _ ← elfStrTabAddr T es shndx
+  let ni ← rd32 T o
+  let s := (strtab.drop ni).takeWhile (· != 0)
+  if validUtf8 s then pure (.ok s) else pure (.error ())
+
 /-! ### framebuffer -/
 
 inductive FbType where
